@@ -117,11 +117,20 @@ struct Env {
 }
 impl Env {
     /// maxd = VectorEngineConfig::max_dimension (0 = None)
-    fn new(ncoll: u64, maxd: u64) -> Env {
-        let eng = if maxd == 0 {
+    /// par = VectorEngineConfig::parallel_threshold (0 = keep the default 5000): from that many stored
+    /// embeddings on, search_similar / search_similar_with_metric run their rayon twins
+    fn new(ncoll: u64, maxd: u64, par: u64) -> Env {
+        let eng = if maxd == 0 && par == 0 {
             VectorEngine::new()
         } else {
-            VectorEngine::with_config(vector_engine::VectorEngineConfig { max_dimension: Some(maxd as usize), ..Default::default() }).unwrap()
+            let mut cfg = vector_engine::VectorEngineConfig::default();
+            if maxd > 0 {
+                cfg.max_dimension = Some(maxd as usize);
+            }
+            if par > 0 {
+                cfg.parallel_threshold = par as usize;
+            }
+            VectorEngine::with_config(cfg).unwrap()
         };
         Env { eng, ncoll }
     }
@@ -298,7 +307,12 @@ fn run_trace(ncoll: u64, ops: &[Op]) -> (String, bool) {
     run_trace_cfg(ncoll, 0, ops)
 }
 fn run_trace_cfg(ncoll: u64, maxd: u64, ops: &[Op]) -> (String, bool) {
-    let mut env = Env::new(ncoll, maxd);
+    run_trace_par(ncoll, maxd, 0, ops)
+}
+/// The model does not mention parallel_threshold: the sequential scan and its parallel twin have to meet the
+/// same exact-path criterion, so the same term is checked whichever twin produced the observations.
+fn run_trace_par(ncoll: u64, maxd: u64, par: u64, ops: &[Op]) -> (String, bool) {
+    let mut env = Env::new(ncoll, maxd, par);
     let mut cobs = vec![];
     let mut vectors: BTreeSet<V> = BTreeSet::new();
     let mut queries: BTreeSet<(u64, V)> = BTreeSet::new();
@@ -725,6 +739,29 @@ fn main() {
         let (t, _) = run_trace(2, &norms);
         trace.push(&t, &format!("corpus tiny-norm / huge-norm vectors and queries with a cached index ops={:?}", norms), true);
         dist.hit("corpus");
+        // the parallel twins of the exact scan (parallel_threshold = 4 and 1): every metric, non-unit queries,
+        // a query equal to a stored vector, k below and above the number of stored vectors
+        for par in [4u64, 1] {
+            let pts: Vec<V> = (1..=7).map(|i| vec![b32(i as f32), b32(0.5 * i as f32 - 1.0), b32(((i * 3) % 5) as f32)]).collect();
+            let mut ops: Vec<Op> = pts.iter().enumerate().map(|(i, v)| Op::Store(0, i as u64, v.clone())).collect();
+            let qs = [pts[5].clone(), vec![b32(3.0), b32(-2.0), b32(0.5)], vec![b32(1e18), b32(0.0), b32(-5e17)], vec![b32(0.0), b32(0.0), b32(0.0)]];
+            for q in &qs {
+                for m in 0..3u64 {
+                    ops.push(Op::SearchMetric(q.clone(), 3, m));
+                    ops.push(Op::SearchMetric(q.clone(), 10, m));
+                }
+                ops.push(Op::Search(0, q.clone(), 2));
+                ops.push(Op::Search(0, q.clone(), 10));
+                ops.push(Op::SearchFiltered(0, q.clone(), 2, 1, 2, 3));
+            }
+            ops.push(Op::Delete(0, 5));
+            ops.push(Op::SearchMetric(qs[0].clone(), 3, 2));
+            ops.push(Op::BatchDelete(vec![0, 1, 2]));
+            ops.push(Op::SearchMetric(qs[1].clone(), 3, 1)); // below the threshold of 4 again: sequential twin
+            let (t, _) = run_trace_par(2, 0, par, &ops);
+            trace.push(&t, &format!("corpus parallel twins of the exact scan, parallel_threshold={par} ops={:?}", ops), true);
+            dist.hit("corpus");
+        }
         // all-zero vectors stored among others BEFORE the index is built, then index-answered searches
         let mut zr = Rng::new(0x2E70);
         for c in [0u64, 0, 0, 1, 0] {
@@ -773,9 +810,24 @@ fn main() {
             ops.extend(extra);
             ops.extend(tail);
         }
-        let (t, cached) = run_trace_cfg(ncoll, maxd, &ops);
+        // a third of the runs lower parallel_threshold so that the rayon twins of the exact scan answer
+        let par = if rng.chance(1, 3) { rng.range(1, 4) } else { 0 };
+        if par > 0 {
+            dist.hit("cfg.parallel_threshold_small");
+            // more metric searches in these runs
+            let extra = rng.range(1, 3);
+            for _ in 0..extra {
+                let src: Vec<&V> = ops.iter().filter_map(|o| match o { Op::Store(0, _, v) if !v.is_empty() => Some(v), _ => None }).collect();
+                if let Some(v) = src.first() {
+                    let q: V = if rng.chance(1, 2) { (*rng.pick(&src)).clone() } else { gen_vec(&mut rng, v.len(), &mut dist) };
+                    let kk = *rng.pick(&[1u64, 2, 3, 10]);
+                    ops.push(Op::SearchMetric(q, kk, rng.range(1, 2)));
+                }
+            }
+        }
+        let (t, cached) = run_trace_par(ncoll, maxd, par, &ops);
         dist.hit(if cached { "trace.search_after_build" } else { "trace.exact_only" });
-        trace.push(&t, &format!("ncoll={ncoll} max_dimension={maxd} ops={:?}", ops), ops.iter().any(|o| matches!(o, Op::Search(..) | Op::SearchMetric(..) | Op::SearchFiltered(..))));
+        trace.push(&t, &format!("ncoll={ncoll} max_dimension={maxd} parallel_threshold={par} ops={:?}", ops), ops.iter().any(|o| matches!(o, Op::Search(..) | Op::SearchMetric(..) | Op::SearchFiltered(..))));
     }
 
     // ---- known finding reserved-default-name (implementation only): a named collection called
